@@ -35,12 +35,13 @@ from harness.feas_util import Bench, TRX, base_mode, penalties_json
 
 BAND_DB = 0.0051
 CLAUSES_B1 = ['TypeOK', 'AutoSelection', 'FixedModeVerdict', 'InfPenaltyAlwaysBlocks', 'CompositionHolds',
-              'LineIsPristine', 'RuleWellDefined', 'SelectionUniqueUpToTies', 'BlockedIffNoFeasible']
-WITNESSES = ['WitnessManyUpdates', 'WitnessReverseBlocks', 'WitnessUnjudgedPick']
+              'LineIsPristine', 'ReverseOnOwnRoute', 'RuleWellDefined', 'SelectionUniqueUpToTies', 'BlockedIffNoFeasible']
+WITNESSES = ['WitnessManyUpdates', 'WitnessReverseBlocks', 'WitnessUnjudgedPick', 'WitnessProfileZero',
+             'WitnessOtherRoute', 'WitnessSameRoute']
 
 TIER = {
     # b2: (# two-mode libraries sampled, # three-mode libraries sampled, paths); b3: scenarios per pair, pairs
-    'quick': dict(b2_two=230, b2_three=330, b2_paths=1, b3_per_pair=25, b3_pairs='quick'),
+    'quick': dict(b2_two=230, b2_three=330, b2_paths=1, b3_per_pair=23, b3_pairs='quick'),
     'thorough': dict(b2_two=1176, b2_three=5000, b2_paths=3, b3_per_pair=70, b3_pairs='thorough'),
 }
 
@@ -195,7 +196,8 @@ B3_PAIRS = {
               ('mesh33', 'trx Rennes_STA', 'trx Brest_KLA'),
               ('swe5', 'trx_Gothenburg', 'trx_Karlstad'), ('swe5', 'trx_Borås', 'trx_Umeå'),
               ('swe4', 'trx_Stockholm', 'trx_Malmö'),
-              ('line', 'trx A', 'trx B'), ('line', 'trx B', 'trx C'), ('line', 'trx C', 'trx A')],
+              ('line', 'trx A', 'trx B'), ('line', 'trx B', 'trx C'), ('line', 'trx C', 'trx A'),
+              ('prof', 'trx Brest_KLA', 'trx Vannes_KBE'), ('prof', 'trx Lannion_CAS', 'trx Lorient_KMA')],
     'thorough': None,       # filled in b3_pairs()
 }
 
@@ -204,7 +206,7 @@ def b3_pairs(tier, benches, rng):
     if tier == 'quick':
         return B3_PAIRS['quick']
     out = list(B3_PAIRS['quick'])
-    for b in ('mesh', 'mesh33', 'meshdet', 'swe5', 'swe4', 'line'):
+    for b in ('mesh', 'mesh33', 'meshdet', 'prof', 'swe5', 'swe4', 'line'):
         uids = benches[b].trx_uids()
         pairs = [(s, d) for s in uids for d in uids if s != d]
         for s, d in rng.sample(pairs, min(len(pairs), 7 if b.startswith('mesh') else 9)):
@@ -280,20 +282,26 @@ def physical_library(kind, spacing, meas, rng, listing='asc'):
     return lib
 
 
-def place_thresholds(bench, src, dst, spacing, lib, deltas, margin, reference):
+def place_thresholds(bench, src, dst, spacing, lib, deltas, margin, reference, vias=((),)):
     """OSNR of every fitting mode := (measured pristine worst channel) - delta - margin.  `reference` chooses the
     direction(s) measured: 'fwd', 'rev' (straddle the reverse metric), 'between' (forward passes, reverse fails when
     the directions differ) or 'fwdpass' (like 'between', and forward passes by 0.3 dB when they do not differ or the
-    reverse worst channel is outside a table)."""
+    reverse worst channel is outside a table) or 'routes' (batch: between the reverse metrics of the two routes).
+    Measurements are those of the first request's route (vias[0])."""
+    via = vias[0]
     out = []
     for m, d in zip(lib, deltas):
         m = dict(m)
         if m['min_spacing'] <= spacing:
-            f = bench.pristine(src, dst, 0, spacing, m)
+            f = bench.pristine(src, dst, 0, spacing, m, via)
             wf = fu.worst_db(f)
             w = wf if np.isfinite(wf) else float(np.min(f['rx'])) - 3.0
-            if reference != 'fwd':
-                r = bench.pristine(src, dst, 1, spacing, m)
+            if reference == 'routes' and len(vias) > 1:
+                wrs = [fu.worst_db(bench.pristine(src, dst, 1, spacing, m, v)) for v in vias[:2]]
+                if all(np.isfinite(x) for x in wrs) and abs(wrs[0] - wrs[1]) > 0.03:
+                    w, d = (wrs[0] + wrs[1]) / 2, 0.0
+            elif reference != 'fwd':
+                r = bench.pristine(src, dst, 1, spacing, m, via)
                 wr = fu.worst_db(r)
                 if np.isfinite(wr) and np.isfinite(wf):
                     if reference == 'rev':
@@ -315,48 +323,60 @@ def place_thresholds(bench, src, dst, spacing, lib, deltas, margin, reference):
     return out
 
 
-def scenario_trace(bench, name, src, dst, spacing, modes_json, fixed, bidir, margin):
-    """run the real code on one constructed scenario and assemble the integer trace for Trace_Feasibility"""
+def scenario_traces(bench, name, src, dst, spacing, modes_json, fixed, bidir, margin, vias=((),)):
+    """run the real code on one constructed scenario - ONE call of compute_path_with_disjunction for a batch of
+    requests identical but for their route (vias) - and assemble one integer trace per request for Trace_Feasibility;
+    every request is judged against the pristine figures of ITS OWN route"""
     from gnpy.topology.request import find_reversed_path
     eq = bench.equipment(modes_json, margin)
     loaded = eq['Transceiver'][TRX].mode
     pen_ids = {id(m['penalties']): k + 1 for k, m in enumerate(loaded)}
-    req, evals, exc = fu.run_request(bench, eq, src, dst, None if not fixed else modes_json[fixed - 1]['format'], bidir,
-                                     spacing)
-    sel, block = fu.outcome_of(req, eq, exc)
-    path = bench.path(src, dst, spacing)
+    rqs, evals, exc, res = fu.run_batch(bench, eq, src, dst, None if not fixed else modes_json[fixed - 1]['format'],
+                                        bidir, spacing, vias)
     sys_margin = eq['SI']['default'].sys_margins
-    tmodes = []
-    events = []
-    raw = dict(pristine={}, loop=[])
-    for k, (mj, m) in enumerate(zip(modes_json, loaded), start=1):
-        fits = float(m['min_spacing']) <= spacing
-        tm = dict(br=int(round(m['baud_rate'] / 1e6)), rate=int(round(m['bit_rate'] / 1e6)), fits=int(fits),
-                  thr=udb(m['OSNR'] + sys_margin), tx=fu.inv9(m['tx_osnr']), pf=fu.NOT_RUN, pr=fu.NOT_RUN)
-        for imp, short in fu.SHORT.items():
-            tm[short] = fu.points_int(mj.get('penalties'), imp)      # as written in the file, not as loaded
-        if fits:
-            pf = bench.pristine(src, dst, 0, spacing, mj)
-            raw['pristine'][(k, 0)] = pf
-            tm['pf'] = fu.project_eval(pf, k, 0, 0)
-            events.append(dict(kind=0, mode=k, dir=0))
-            if bidir and k in (fixed, sel):
-                pr = bench.pristine(src, dst, 1, spacing, mj)
-                raw['pristine'][(k, 1)] = pr
-                tm['pr'] = fu.project_eval(pr, k, 1, 0)
-                events.append(dict(kind=0, mode=k, dir=1))
-        tmodes.append(tm)
-    for ev in evals:
-        k = pen_ids.get(ev['pen_id'])
-        if k is None:
-            raise Machinery(f'{name}: a receiver evaluation used a penalties table that is not a mode of the library')
-        direction = 0 if ev['uid'] == dst else 1
-        events.append(fu.project_eval(ev, k, direction, 1))
-        raw['loop'].append((k, direction, ev))
-    tr = dict(name=name, auto=int(not fixed), bidir=int(bool(bidir)), fixed=fixed or 0,
-              addf=bench.adddrop_inv(path), addr=bench.adddrop_inv(find_reversed_path(path)),
-              modes=tmodes, ev=events, out=dict(sel=sel, block=block))
-    return tr, raw, exc
+    out = []
+    for ri, (req, via) in enumerate(zip(rqs, vias)):
+        sel, block = fu.outcome_of(req, eq, exc)
+        path = bench.path(src, dst, spacing, via)
+        tmodes = []
+        events = []
+        raw = dict(pristine={}, loop=[])
+        for k, (mj, m) in enumerate(zip(modes_json, loaded), start=1):
+            fits = float(m['min_spacing']) <= spacing
+            tm = dict(br=int(round(m['baud_rate'] / 1e6)), rate=int(round(m['bit_rate'] / 1e6)), fits=int(fits),
+                      thr=udb(m['OSNR'] + sys_margin), tx=fu.inv9(m['tx_osnr']), pf=fu.NOT_RUN, pr=fu.NOT_RUN)
+            for imp, short in fu.SHORT.items():
+                tm[short] = fu.points_int(mj.get('penalties'), imp)      # as written in the file, not as loaded
+            if fits:
+                pf = bench.pristine(src, dst, 0, spacing, mj, via)
+                raw['pristine'][(k, 0)] = pf
+                tm['pf'] = fu.project_eval(pf, k, 0, 0)
+                events.append(dict(kind=0, mode=k, dir=0))
+                if bidir and k in (fixed, sel):
+                    pr = bench.pristine(src, dst, 1, spacing, mj, via)
+                    raw['pristine'][(k, 1)] = pr
+                    tm['pr'] = fu.project_eval(pr, k, 1, 0)
+                    events.append(dict(kind=0, mode=k, dir=1))
+            tmodes.append(tm)
+        for ev in evals:
+            if ev['req'] != str(req.request_id):
+                if ev['req'] is None:
+                    raise Machinery(f'{name}: a receiver evaluation outside propagate / propagate_and_optimize_mode')
+                continue
+            k = pen_ids.get(ev['pen_id'])
+            if k is None:
+                raise Machinery(f'{name}: a receiver evaluation used a penalties table that is not a mode of the library')
+            direction = 0 if ev['uid'] == dst else 1
+            events.append(fu.project_eval(ev, k, direction, 1))
+            raw['loop'].append((k, direction, ev))
+        # the reverse result RETURNED for this request: the figures its verdict was taken on
+        if res is not None and bidir and sel and res[2][ri]:
+            events.append(fu.project_reported(res[2][ri][-1], sel))
+        tr = dict(name=f'{name}.{ri}' if len(vias) > 1 else name, auto=int(not fixed), bidir=int(bool(bidir)),
+                  fixed=fixed or 0, stf=bench.stages(path), str=bench.stages(find_reversed_path(path)),
+                  modes=tmodes, ev=events, out=dict(sel=sel, block=block))
+        out.append((tr, raw, exc))
+    return out
 
 
 def _interp_int(tab, v):
@@ -384,10 +404,12 @@ def _band_dev(tab, v, obs):
 def deviations(tr, raw, acc):
     """measured deviations on the recorded figures (reported next to the tolerances; not a verdict)"""
     for e in tr['ev']:
+        if e['kind'] == 2:
+            continue
         if e['kind'] == 0:
             e = tr['modes'][e['mode'] - 1]['pf' if e['dir'] == 0 else 'pr']
         m = tr['modes'][e['mode'] - 1]
-        adds = sum(tr['addf'] if e['dir'] == 0 else tr['addr'])
+        adds = sum(fu.stage_inv(st) for st in (tr['stf'] if e['dir'] == 0 else tr['str']))
         acc['composition'] = max(acc['composition'], max(abs(rx - ln - m['tx'] - adds) for rx, ln in zip(e['rx'], e['line'])))
         acc['max_nup'] = max(acc['max_nup'], e['nup'])
         for short in ('cd', 'pmd', 'pdl'):
@@ -411,16 +433,23 @@ def build_b3(chk, benches):
     kinds = ['plain', 'offset', 'cdshort', 'ties', 'groups3', 'nofit', 'shuffled', 'offset2', 'cdsteep', 'cdpartial',
              'cdlow', 'listing']
     # plans taken first on every pair: the table-end / per-channel kinds in each request shape (None: drawn at random)
-    plans = [(k, None, None, None) for k in kinds]
-    plans += [(k, fx, True, ref) for k in ('cdpartial', 'cdsteep', 'cdlow') for fx, ref in ((False, 'fwdpass'), (True, 'fwdpass'))]
-    plans += [('cdsteep', False, True, 'rev'), ('cdlow', True, False, 'fwd'), ('cdpartial', False, False, 'fwd')]
+    # last field: the batch - None (one request) or two requests with the same ends and mode: 'alt-first' (constrained
+    # route then shortest), 'alt-second', 'same' (twice the shortest); only where the network offers another route
+    plans = [(k, None, None, None, None) for k in kinds]
+    plans += [('plain', True, True, 'routes', 'alt-first'), ('plain', False, True, 'routes', 'alt-second'),
+              ('offset', True, True, 'fwdpass', 'alt-second'), ('cdsteep', True, True, 'rev', 'alt-first'),
+              ('plain', True, True, 'fwd', 'same')]
+    plans += [(k, fx, True, ref, None) for k in ('cdpartial', 'cdsteep', 'cdlow') for fx, ref in ((False, 'fwdpass'), (True, 'fwdpass'))]
+    plans += [('cdsteep', False, True, 'rev', None), ('cdlow', True, False, 'fwd', None), ('cdpartial', False, False, 'fwd', None)]
     for pi, (bname, src, dst) in enumerate(b3_pairs(chk.tier, benches, rng)):
         bench = benches[bname]
         probe = {d: bench.pristine(src, dst, d, 75e9, base_mode('p', 32e9, 100e9, 37.5e9))['cd'] for d in (0, 1)}
         meas = dict(f=(float(np.min(probe[0])), float(np.max(probe[0]))),
                     r=(float(np.min(probe[1])), float(np.max(probe[1]))))
+        alts = bench.alternative_routes(src, dst) if bench.name.startswith(('mesh', 'prof')) else []
         for si in range(cfg['b3_per_pair']):
-            kind, p_fixed, p_bidir, p_ref = plans[si] if si < len(plans) else (rng.choice(kinds), None, None, None)
+            kind, p_fixed, p_bidir, p_ref, p_batch = plans[si] if si < len(plans) else \
+                (rng.choice(kinds), None, None, None, None)
             spacing = 75e9 if kind != 'nofit' else rng.choice([75e9, 50e9, 25e9])
             # order in which the penalty points are written: ascending on the first pass over the kinds, then any
             listing = 'desc' if kind == 'listing' else 'asc' if si < len(kinds) else \
@@ -448,19 +477,28 @@ def build_b3(chk, benches):
                 bidir, reference = p_bidir, p_ref
                 if pattern in (0, 2):
                     deltas = [rng.choice(DELTAS) for _ in range(n)]
-            modes = place_thresholds(bench, src, dst, spacing, lib, deltas, sys_margin, reference)
+            if p_batch is None and p_bidir is None and bidir and alts and rng.random() < 0.2:
+                p_batch = rng.choice(['alt-first', 'alt-second', 'same'])
+            vias = ((),)
+            if p_batch and alts and spacing == 75e9:
+                alt = alts[si % len(alts)]
+                vias = {'alt-first': (alt, ()), 'alt-second': ((), alt), 'same': ((), ())}[p_batch]
+            modes = place_thresholds(bench, src, dst, spacing, lib, deltas, sys_margin, reference, vias)
             name = f't{pi}-{si}'
-            tr, raw, exc = scenario_trace(bench, name, src, dst, spacing, modes, fixed, bidir, margin)
-            hist_dev = deviations(tr, raw, acc)
-            traces.append(tr)
-            meta[name] = dict(history_deviation_db=round(hist_dev, 6), bench=bname, src=src, dst=dst, kind=kind,
-                              spacing=spacing, fixed=fixed, bidir=bidir, reference=reference, measured_cd=meas,
-                              table_listing=listing,
-                              deltas_db=deltas, sys_margins=sys_margin, exception=exc, outcome=tr['out'],
-                              offsets=sorted({(m['baud_rate'], m.get('equalization_offset_db', 0)) for m in lib}),
-                              modes=[dict(format=m['format'], OSNR=m['OSNR'], min_spacing=m['min_spacing'],
-                                          tx_osnr=m['tx_osnr']) for m in modes],
-                              judged=any(abs(d) > BAND_DB for d, m in zip(deltas, lib) if m['min_spacing'] <= spacing))
+            for tr, raw, exc in scenario_traces(bench, name, src, dst, spacing, modes, fixed, bidir, margin, vias):
+                hist_dev = deviations(tr, raw, acc)
+                traces.append(tr)
+                meta[tr['name']] = dict(
+                    history_deviation_db=round(hist_dev, 6), bench=bname, src=src, dst=dst, kind=kind,
+                    spacing=spacing, fixed=fixed, bidir=bidir, reference=reference, measured_cd=meas,
+                    table_listing=listing, batch_routes=[list(v) for v in vias],
+                    stages_forward=[dict(kind=st['kind'], sel=st['sel'], profile_ids=[q['id'] for q in st['profiles']])
+                                    for st in tr['stf']],
+                    deltas_db=deltas, sys_margins=sys_margin, exception=exc, outcome=tr['out'],
+                    offsets=sorted({(m['baud_rate'], m.get('equalization_offset_db', 0)) for m in lib}),
+                    modes=[dict(format=m['format'], OSNR=m['OSNR'], min_spacing=m['min_spacing'],
+                                tx_osnr=m['tx_osnr']) for m in modes],
+                    judged=any(abs(d) > BAND_DB for d, m in zip(deltas, lib) if m['min_spacing'] <= spacing))
     return traces, meta, acc
 
 
@@ -498,6 +536,8 @@ def judge_b3(chk, traces, meta, futures):
             raise Machinery(f'trace {t["name"]} consumed {v["n"]}/{len(t["ev"]) + 1} steps')
         chk.case(t['name'] + json.dumps(m['modes']), nontrivial=m['judged'])
         clauses = sorted({c for _, c in v['viol']})
+        if 'StageWellFormed' in clauses:
+            raise Machinery(f'trace {t["name"]}: a selected ROADM profile is not listed for the type / kind')
         if 'TableWellFormed' in clauses:
             raise Machinery(f'trace {t["name"]}: a constructed penalty table violates the integer-interpolation bound')
         if not clauses:
@@ -528,6 +568,10 @@ def judge_b3(chk, traces, meta, futures):
 
 
 # =============================================================================================================== run
+def fu_node(bench, uid):
+    return next(n for n in bench.net.nodes() if n.uid == uid)
+
+
 def make_benches(tier):
     b = {'mesh': Bench('mesh', 'eqpt_config.json', 'meshTopologyExampleV2.json'),
          'mesh33': Bench('mesh33', 'eqpt_config.json', 'meshTopologyExampleV2.json', add_drop_osnr=33.0),
@@ -540,6 +584,26 @@ def make_benches(tier):
         ([(80, 'SSMF', slope)] * 3, [(86, 'SSMF', slope)] * 3),
         ([(80, 'SSMF', slope), (80, 'C13-NEG', slope)], [(85, 'SSMF', slope), (90, 'C13-NEG', slope)])])
     b['line'] = Bench('line', 'eqpt_config.json', topo, add_drop_osnr=36.0, extra_fibers=[neg])
+    # ROADM type listing several add / drop profiles (id 0 NOT first of its kind); the topology selects profiles per
+    # pair of degrees on some sites: add profile 0 everywhere out of Lannion and on one degree out of Brest, the poor
+    # drop profile 2 on ONE ingress degree of Brest (routes arriving another way get the first listed), drop 1 at Vannes
+    def degrees(site):
+        n = fu_node(b['mesh'], f'roadm {site}')
+        from gnpy.core.elements import Transceiver
+        ins = sorted(x.uid for x in b['mesh'].net.predecessors(n) if not isinstance(x, Transceiver))
+        outs = sorted(x.uid for x in b['mesh'].net.successors(n) if not isinstance(x, Transceiver))
+        return ins, outs
+    sel = {}
+    ins, outs = degrees('Lannion_CAS')
+    sel['roadm Lannion_CAS'] = [dict(from_degree='trx Lannion_CAS', to_degree=o, impairment_id=0) for o in outs]
+    ins, outs = degrees('Brest_KLA')
+    sel['roadm Brest_KLA'] = [dict(from_degree='trx Brest_KLA', to_degree=outs[0], impairment_id=0),
+                              dict(from_degree=ins[0], to_degree='trx Brest_KLA', impairment_id=2)]
+    ins, outs = degrees('Vannes_KBE')
+    sel['roadm Vannes_KBE'] = [dict(from_degree=i, to_degree='trx Vannes_KBE', impairment_id=1) for i in ins]
+    b['prof'] = Bench('prof', 'eqpt_config.json', 'meshTopologyExampleV2.json', per_degree=sel,
+                      roadm_profiles=fu.osnr_profiles([(3, 'add', 41.0), (1, 'drop', 40.0), (0, 'add', 30.0),
+                                                       (2, 'drop', 27.0)]))
     if tier == 'thorough':
         b['meshdet'] = Bench('meshdet', 'eqpt_config.json', 'meshTopologyExampleV2.json',
                              detailed_sites=('roadm Lannion_CAS', 'roadm Brest_KLA', 'roadm Vannes_KBE'))
